@@ -34,27 +34,28 @@ type Point struct {
 }
 
 type Cmd struct {
-	A      string                     `json:"a"`
-	T      string                     `json:"t"`
-	P      *Point                     `json:"p"`
-	Dims   map[string]json.RawMessage `json:"dims"`
-	Vals   map[string]json.RawMessage `json:"vals"`
-	Mem    bool                       `json:"mem"`
-	SQL    string                     `json:"sql"`
-	Tables []zv.TableDef              `json:"tables"`
-	Lines  []map[string]interface{}   `json:"lines"`
-	Sorted bool                       `json:"sorted"`
-	Fields []string                   `json:"fields"`
-	Pause  int                        `json:"pause"`
-	Hold   bool                       `json:"hold"`
-	Set    []SetQuery                 `json:"set"`
-	Conc   bool                       `json:"concurrent"`
-	SetID  string                     `json:"setId"`
-	Desc   map[string]interface{}     `json:"desc"`
-	Sub    string                     `json:"sub"`
-	Dim    string                     `json:"dim"`
-	Outer  string                     `json:"outer"`
-	LawID  string                     `json:"lawId"`
+	A        string                     `json:"a"`
+	T        string                     `json:"t"`
+	P        *Point                     `json:"p"`
+	Dims     map[string]json.RawMessage `json:"dims"`
+	Vals     map[string]json.RawMessage `json:"vals"`
+	Mem      bool                       `json:"mem"`
+	SQL      string                     `json:"sql"`
+	Tables   []zv.TableDef              `json:"tables"`
+	Lines    []map[string]interface{}   `json:"lines"`
+	Sorted   bool                       `json:"sorted"`
+	Fields   []string                   `json:"fields"`
+	Pause    int                        `json:"pause"`
+	Hold     bool                       `json:"hold"`
+	HoldDone bool                       `json:"holdDone"`
+	Set      []SetQuery                 `json:"set"`
+	Conc     bool                       `json:"concurrent"`
+	SetID    string                     `json:"setId"`
+	Desc     map[string]interface{}     `json:"desc"`
+	Sub      string                     `json:"sub"`
+	Dim      string                     `json:"dim"`
+	Outer    string                     `json:"outer"`
+	LawID    string                     `json:"lawId"`
 	// a second IN (sub-query) of the same WHERE
 	Sub2 string `json:"sub2"`
 	SQL2 string `json:"sql2"`
@@ -298,10 +299,33 @@ func (r *runner) exec(c *Cmd) error {
 			return err
 		}
 		var done int
-		ctl.Locked(func() { done = ctl.FlushDone[c.T] })
+		ctl.Locked(func() {
+			done = ctl.FlushDone[c.T]
+			if c.HoldDone {
+				ctl.HoldDone[c.T] = true
+			}
+		})
 		ctl.Release(c.T, "rs")
 		if err := ctl.WaitCond(stepTimeout, "flush done in "+c.T, func() bool { return ctl.FlushDone[c.T] > done }); err != nil {
 			return err
+		}
+		if c.HoldDone {
+			// the new file store is installed and the flush has not returned yet:
+			// the scenario queries in this state and then sends FlushDone
+			_, err := ctl.WaitPark(c.T, "rs", stepTimeout, "flush.done")
+			return err
+		}
+		if ch := r.flushCh[c.T]; ch != nil {
+			select {
+			case <-ch:
+			case <-time.After(stepTimeout):
+				return r.fail("forced flush of %s did not return", c.T)
+			}
+			delete(r.flushCh, c.T)
+		}
+	case "FlushDone":
+		if parkedNow(ctl, c.T, "rs", "flush.done") {
+			ctl.Release(c.T, "rs")
 		}
 		if ch := r.flushCh[c.T]; ch != nil {
 			select {
